@@ -330,7 +330,7 @@ def bytes_needed(data: bytes):
     return hlen + body_len
 
 
-def decode_message(data: bytes, fds_available: int = 0, exact=True) -> Msg:
+def decode_message(data: bytes, fds_available: int = 0, exact=True, mandatory=True) -> Msg:
     """Decode the message at the start of data.  exact=True demands that data
     is exactly one message.  Raises Invalid(reason) / Incomplete."""
     total = bytes_needed(data)
@@ -414,7 +414,7 @@ def decode_message(data: bytes, fds_available: int = 0, exact=True) -> Msg:
     req = {MT_CALL: (F_PATH, F_MEMBER), MT_SIGNAL: (F_INTERFACE, F_PATH, F_MEMBER),
            MT_ERROR: (F_ERROR_NAME, F_REPLY_SERIAL), MT_RETURN: (F_REPLY_SERIAL,)}.get(mtype, ())
     for f in req:
-        if f not in seen:
+        if mandatory and f not in seen:
             raise Invalid('header.missing-' + FIELD_NAME[f])
     m = Msg(mtype, flags, serial, fields, [], 'l' if e == '<' else 'B', version)
     m.body_len = body_len
@@ -430,6 +430,14 @@ def decode_message(data: bytes, fds_available: int = 0, exact=True) -> Msg:
     if rb.p != rb.end:
         raise Invalid('body.too-much-data')
     return m
+
+
+def decode_lenient(data: bytes):
+    """Well-formedness only: like decode_message but without the mandatory-field rule; None if malformed."""
+    try:
+        return decode_message(data, 1 << 30, True, mandatory=False)
+    except (Invalid, Incomplete):
+        return None
 
 
 def try_decode(data: bytes, fds_available=0, exact=True):
